@@ -636,8 +636,7 @@ def gen_rescale(rng, n):
         al, be, ga, de = [F(rng.randint(1, 9), rng.randint(1, 4)) for _ in range(4)]
         # al = ga or be = de makes s1 - s2 lightlike: the code divides by a = <s1-s2, s1-s2> = 0 (finding, see meta note)
         while al * de == be * ga or al == ga or be == de:
-            de += 1
-            ga += F(1, 2)
+            al, be, ga, de = [F(rng.randint(1, 9), rng.randint(1, 4)) for _ in range(4)]
         s1 = [al * a + be * b for a, b in zip(N1, N2)]
         s2 = [ga * a + de * b for a, b in zip(N1, N2)]
         u = F(rng.randint(1, 6), rng.randint(1, 4))
